@@ -11,6 +11,7 @@ package main
 import (
 	"bytes"
 	"fmt"
+	"os"
 	"reflect"
 	"strconv"
 	"sync"
@@ -1377,9 +1378,6 @@ var _ = hook.OpOnly
 // Nothing is retained but first results and one decoded packet.
 func (w *world) volume(t int, op *Op, in *slotVal, res *opResult) {
 	n := op.N
-	if raceBuild && n > 24000 {
-		n = 24000 + n%1000 // the race build is there for O1; quantities are the plain build's business
-	}
 	variant := int(op.Seed % 3)
 	var twin rtcp.Packet
 	if in.pv.gen && !in.shared {
@@ -1403,15 +1401,40 @@ func (w *world) volume(t int, op *Op, in *slotVal, res *opResult) {
 					wide = append(wide, l)
 				}
 			}
-			if len(wide) == 0 {
+			var texts []reflect.Value
+			for _, l := range wide {
+				if l.Kind() == reflect.String {
+					texts = append(texts, l)
+				}
+			}
+			switch {
+			case len(wide) == 0:
 				variant = 0
-			} else {
-				leaf = wide[int((op.Seed/3)%uint64(len(wide)))]
+			case len(texts) > 0 && (op.Seed/3)%2 == 0:
+				leaf = texts[int((op.Seed/6)%uint64(len(texts)))] // texts first, half of the time
+			default:
+				leaf = wide[int((op.Seed/6)%uint64(len(wide)))]
 			}
 		}
 	}
 	if variant != 2 && twin != nil {
 		tweakPacket(twin, op.Seed)
+	}
+	if variant == 2 {
+		n *= 4 // distinct values are cheap to make, and digests or table slots collide only among very many
+	}
+	if raceBuild && n > 24000 {
+		n = 24000 + n%1000 // the race build is there for O1; quantities are the plain build's business
+	}
+	if volumeLog != "" && w.conc {
+		lk := "-"
+		if leaf.IsValid() {
+			lk = leaf.Kind().String()
+		}
+		if f, err := os.OpenFile(volumeLog, os.O_APPEND|os.O_CREATE|os.O_WRONLY, 0o644); err == nil {
+			fmt.Fprintf(f, "%s variant=%d leaf=%s n=%d\n", kindNames[in.pv.kind%len(kindNames)], variant, lk, n)
+			f.Close()
+		}
 	}
 	fail := func(what string, it int, exp, act string) {
 		if !res.incons {
@@ -1591,6 +1614,9 @@ func (w *world) volume(t int, op *Op, in *slotVal, res *opResult) {
 // volumeBackwards makes the distinct-values variant of opVolume walk its values in reverse order (set in the
 // history-free twin process of O8: the per-value results, hence their sum, must not depend on the order).
 var volumeBackwards bool
+
+// volumeLog (development aid, SIM_VOLUME_LOG): file that receives one line per volume operation.
+var volumeLog = os.Getenv("SIM_VOLUME_LOG")
 
 func fnvBytes(h uint64, b []byte) uint64 {
 	for _, c := range b {
